@@ -49,6 +49,21 @@ Section BL.
     apply block_ok_enc. rewrite Forall_forall in F. exact (F r Hr).
   Qed.
 
+  Lemma area_written img raws pre post a b :
+    Forall blk_ok raws -> img = pre ++ concat (map enc raws) ++ post -> a = lenN pre ->
+    b = lenN pre + lenN (concat (map enc raws)) ->
+    area uncompress img a b = Some (map (fun r => (r, stored_size compress r, is_comp compress r)) raws).
+  Proof.
+    intros F -> -> ->. unfold area.
+    assert (C : (lenN pre <=? lenN pre + lenN (concat (map enc raws))) &&
+                (lenN pre + lenN (concat (map enc raws)) <=? lenN (pre ++ concat (map enc raws) ++ post)) = true).
+    { rewrite andb_true_iff, !N.leb_le, !lenN_app. lia. }
+    rewrite C. rewrite (slice_app pre (concat (map enc raws)) post) by reflexivity.
+    pose proof (parse_blocks_spec compress uncompress compress_ok raws [] (length (concat (map enc raws))) F
+                  (blocks_le_disk compress uncompress compress_ok raws F)) as P.
+    cbn [app] in P. rewrite lenN_nil in P. exact P.
+  Qed.
+
   (* the blocks of a lookup table tile the space before its location list *)
   Lemma tile_written img : forall chunks size0 pre,
     Forall blk_ok chunks -> chunks <> [] ->
